@@ -10,6 +10,7 @@ import random
 
 from mpv import arr, models, faults, trace, cmdgen
 
+ANCHORS = ['mpilot/program.py:Program.add_command', 'mpilot/program.py:Program.run', 'mpilot/params.py:ResultParameter.clean', 'mpilot/params.py:NumberParameter.clean', 'mpilot/params.py:TupleParameter.clean', 'mpilot/commands.py:Command.validate_params']   # repository functions the workload must enter (reported as anchors_reached / anchors_missed)
 LEVEL = "fault_enumeration"
 RULE = ("(1) for every built-in command of the CSV library set a valid base model and every fault site on that command (each "
         "required parameter removed, undeclared parameter added, every wrong kind per declared parameter type, unknown/non-data/"
